@@ -5,8 +5,8 @@
      save_npz / load_npz     sparse/numba_backend/_io.py.  Everything that is a *table* in that code (which
                              members are written for which exact class, which members each load attempt reads
                              and in which order, which constructor parameter each member feeds, the constant
-                             constructor flags, np.load's allow_pickle, the exception caught and the handler's
-                             action) is NOT written here: it is Gen/S_npz.v, regenerated from the AST on every
+                             constructor flags, np.load's allow_pickle, the testzip guard, optional reads, the
+                             exception caught and the handler's action) is NOT written here: it is Gen/S_npz.v, regenerated from the AST on every
                              run by tools/sitegen/npz.py.  This file interprets those tables.
      COO.__init__            the part the load path and the Numba boxing path run (_coo/core.py)
      GCXS.__init__           the tuple-argument path, with _utils.check_compressed_axes (_compressed/compressed.py)
@@ -126,21 +126,26 @@ Section Npz.
   Definition test_holds (t : cls_test) (k : klass) : bool :=
     match t with TypeIs c => klass_eqb k c | IsInstance c => klass_isinstance k c end.
 
-  Fixpoint select_branch (bs : list (cls_test * list (string * string))) (k : klass) : list (string * string) :=
+  Fixpoint select_branch (bs : list (cls_test * list (string * string * bool))) (k : klass)
+    : list (string * string * bool) :=
     match bs with
     | [] => []
     | (t, ms) :: r => if test_holds t k then ms else select_branch r k
     end.
 
-  Definition save_table (k : klass) : list (string * string) := save_base ++ select_branch save_branches k.
+  (* (member, attribute, written only if the attribute is not None) *)
+  Definition save_table (k : klass) : list (string * string * bool) :=
+    map (fun na => (fst na, snd na, false)) save_base ++ select_branch save_branches k.
 
-  Fixpoint collect (x : arr) (tbl : list (string * string)) : res members :=
+  Fixpoint collect (x : arr) (tbl : list (string * string * bool)) : res members :=
     match tbl with
     | [] => Ok []
-    | (n, a) :: r =>
+    | (n, a, guarded) :: r =>
       match attr x a with
       | None => Raise OtherError                       (* AttributeError *)
-      | Some f => ms <- collect x r ;; Ok ((n, f) :: ms)
+      | Some f =>
+        ms <- collect x r ;;
+        if guarded && is_object f then Ok ms else Ok ((n, f) :: ms)
       end
     end.
 
@@ -185,16 +190,24 @@ Section Npz.
     Ok (mkGCXS sh axes data indices indptr fill).
 
   (* ---------------------------------------------------------------- load_npz *)
-  (* the reads of one try-block; None = KeyError *)
-  Fixpoint do_reads (names : list string) (m : members) : option (res unit) :=
+  (* the reads of one try-block; None = KeyError.  An optional read (`fp[m] if m in fp else None`) of an absent
+     member yields None instead of raising *)
+  Fixpoint do_reads (names : list (string * bool)) (m : members) : option (res unit) :=
     match names with
     | [] => Some (Ok tt)
-    | n :: r =>
+    | (n, optional) :: r =>
       match mget n m with
-      | None => None
+      | None => if optional then do_reads r m else None
       | Some FObject => if load_allow_pickle then do_reads r m else Some (Raise ValueError)
       | Some _ => do_reads r m
       end
+    end.
+
+  (* the value bound by the read of member n in attempt a (after do_reads succeeded) *)
+  Definition read_value (a : attempt) (m : members) (n : string) : option field :=
+    match mget n m with
+    | Some f => Some f
+    | None => match assoc n (at_reads a) with Some true => Some FObject | _ => None end
     end.
 
   Definition flag (a : attempt) (defaults : list (string * bool)) (n : string) : bool :=
@@ -204,7 +217,7 @@ Section Npz.
     end.
 
   Definition run_ctor (a : attempt) (m : members) : res arr :=
-    let get p := match assoc p (at_args a) with Some n => mget n m | None => None end in
+    let get p := match assoc p (at_args a) with Some n => read_value a m n | None => None end in
     match at_class a with
     | KCOO =>
       match get s_coords, get s_data, get s_shape, get s_fill with
@@ -252,12 +265,23 @@ Section Npz.
   Definition load_members (m : members) : res arr := run_attempts load_attempts m.
 
   (* ---------------------------------------------------------------- container layer *)
-  Inductive file := Complete (ms : members) | Damaged.
+  (* What zipfile / np.load make of a byte string:
+       Unreadable         np.load itself raises (no usable central directory, not a zip file, ...)
+       Archive ok view    the archive opens.  [ok] = ZipFile.testzip() finds no member whose CRC (or local header)
+                          fails to verify; [view] = what the lazy member reads `fp[name]` return.  When [ok] is
+                          false the view is arbitrary: zipfile checks a member's CRC only when the member is read to
+                          its end, and a damaged npy header can make numpy stop early (the "read-ahead hole"), so
+                          reads may return data that was never saved. *)
+  Inductive file := Unreadable | Archive (ok : bool) (view : members).
 
   Definition load_file (f : file) : res arr :=
     match f with
-    | Complete ms => load_members ms
-    | Damaged => Raise OtherError     (* BadZipFile / zlib.error / EOFError / ValueError ... : some exception *)
+    | Unreadable => Raise OtherError     (* BadZipFile / EOFError / ValueError ... : some exception from np.load *)
+    | Archive ok view =>
+      match load_testzip with
+      | Some e => if ok then load_members view else Raise (exc_of_string e)
+      | None => load_members view
+      end
     end.
 
   Section Container.
@@ -301,12 +325,18 @@ Section Npz.
   Definition wf (x : arr) : bool :=
     match x with ACoo c => coo_wf c | AGcxs k g => gcxs_wf k g end.
 
-  (* clause D9_gcxs_1d: a GCXS-family array whose compressed_axes is None (0-d, 1-d) is excluded *)
-  Definition d9_gcxs_1d (x : arr) : bool :=
-    match x with AGcxs _ g => match g_axes g with Some _ => true | None => false end | ACoo _ => true end.
-  (* clause D9_csr_csc_subclass: the CSR / CSC subclasses of GCXS are excluded *)
-  Definition d9_csr_csc_subclass (x : arr) : bool :=
-    match class_of x with KCSR | KCSC => false | _ => true end.
+  (* what a round trip through npz gives back: the same array; a CSR / CSC comes back as a plain GCXS with the same
+     compressed axes, data, indices, indptr, shape and fill (the class of format is kept, not the subclass) *)
+  Definition as_saved (x : arr) : arr :=
+    match x with ACoo c => ACoo c | AGcxs _ g => AGcxs KGCXS g end.
+
+  (* clause MM_optional_compressed_axes (missing-member theorem): the `compressed_axes` member is not the one that is
+     missing from the file of an array that has compressed axes *)
+  Definition mm_axes_kept (x : arr) (keep : string -> bool) : bool :=
+    match x with
+    | AGcxs _ g => match g_axes g with Some _ => keep s_axes | None => true end
+    | ACoo _ => true
+    end.
 
   (* ---------------------------------------------------------------- pickle *)
   Inductive pstate := STuple (l : list field) | SDict (d : members).
@@ -551,8 +581,8 @@ Arguments FScalar {V}.
 Arguments FInts {V}.
 Arguments FMat {V}.
 Arguments FObject {V}.
-Arguments Complete {V}.
-Arguments Damaged {V}.
+Arguments Unreadable {V}.
+Arguments Archive {V}.
 Arguments STuple {V}.
 Arguments SDict {V}.
 Arguments Ref {V}.
